@@ -464,6 +464,30 @@ def run_case(case):
             fail('query-raised', f'a query by {label} raised', None,
                  repr(ex), -1)
             return _fin(res)
+    # ---- builtin objects as components (None included): a query by object
+    # matches them all, and each remove_component detaches exactly one
+    wb = desper.World()
+    builtin = [None, 5, 'x', 2.5, CRoot()][:2 + len(dag) % 4]
+    eb = wb.create_entity(*builtin)
+    try:
+        for _ in range(len(builtin) + 1):
+            before = list(wb.get_components(eb))
+            if not before:
+                break
+            wb.remove_component(eb, object)
+            after = list(wb.get_components(eb))
+            res.stats['queries_checked'] += 1
+            res.stats['builtin_component_removals'] += 1
+            if len(before) - len(after) != 1:
+                fail('remove_component', 'remove_component(e, object) on an '
+                     'entity made of builtin objects', 'exactly one object '
+                     'detached', {'before': list(map(repr, before)),
+                                  'after': list(map(repr, after))}, -2)
+                return _fin(res)
+    except Exception as ex:
+        fail('query-raised', 'remove_component(e, object) on builtin '
+             'components raised', None, repr(ex), -2)
+        return _fin(res)
     # ---- churn: attach / replace / detach components after the queries
     # above, then every get(T) again (query results must not go stale)
     for ei, k in case.get('churn', []):
